@@ -118,11 +118,12 @@ def register(R):
     def src_read(eng, st, recv, args, kwargs):
         g = stream(st, recv)
         amount = args[0] if args else None
-        if isinstance(amount, Opt):
-            raise EngineError('read(Optional) on the source stream')
         rem = g['len'] - g['pos']
         if amount is None:
             n = rem
+        elif isinstance(amount, Opt):
+            a = to_int_term(amount.val)
+            n = z3.If(z3.Or(amount.is_none, a < 0), rem, z3.If(a < rem, a, rem))
         else:
             a = to_int_term(amount)
             n = z3.If(a < 0, rem, z3.If(a < rem, a, rem))
@@ -471,6 +472,22 @@ def register(R):
                                                            and cm.extra['env']['executor'] is c.a_request_executor), ['C05', 'C04', 'C10'])
         out['complete_depends_on_create_and_on_every_part_in_order'] = (B(
             set(pk) == {'upload_id', 'parts'} and pk['upload_id'] is cr.result and parts is c.new.st.env['part_futures']), ['C05', 'C01', 'C04'])
+        # number of parts / exhaustion of the source
+        nparts = to_int_term(c.new.st.obj(c.new.st.env['part_futures']).meta['len'])
+        chunk = c.new.st.env['chunksize']
+        mgr_cls = c.new.obj(c.a_upload_input_manager).cls.name
+        fo = fo_of(c.new.st, c.a_transfer_future)
+        g = c.new.st.ghost.get(('stream', fo.label))
+        if mgr_cls == 'UploadFilenameInputManager':
+            out['number_of_parts_is_ceil_size_over_chunksize'] = (
+                is_ceil_div(nparts, size_val(c.new.st, c.a_transfer_future), chunk), ['C01', 'C14'])
+        elif mgr_cls == 'UploadSeekableInputManager':
+            out['number_of_parts_is_ceil_size_over_chunksize'] = (
+                is_ceil_div(nparts, size_val(c.new.st, c.a_transfer_future), chunk), ['C01', 'C14'])
+        else:
+            d = c.new.obj(c.a_upload_input_manager).fields['_initial_data']
+            empty = B(True) if isinstance(d, bytes) else (to_int_term(d.hi) == to_int_term(d.lo))
+            out['source_read_to_the_end'] = (z3.And(g['pos'] == g['len'], empty), ['C01'])
         # chunk size comes from the adjuster (C14) applied to the configured chunk size and the size
         adj = calls(tr, 'ChunksizeAdjuster.adjust_chunksize')
         out['chunksize_is_adjusted_configured_chunksize'] = (B(
